@@ -7,7 +7,7 @@ history correspondence (Tie B): the same op lines run on the Lean driver and on 
 from vlib import histcheck
 
 MODULE = "TriompheModel.Props.C07"
-EXTRA = ["TriompheModel.Props.C07Iter", "TriompheModel.Proofs.HistVal"]
+EXTRA = ["TriompheModel.Props.C07Iter", "TriompheModel.Proofs.HistVal", "TriompheModel.Props.CmpRead"]
 TAGS = ['C07']
 WEIGHTS = {'iter': 26, 'cb': 22, 'makeMut': 10, 'makeUnique': 6, 'unwrapOrClone': 8, 'intoThin': 6, 'writeSlot': 8}
 
